@@ -293,6 +293,15 @@ static json run_case(const json &c) {
 	} else if (op == "sig1") {
 		gcry_mpi_t s = M(in["s"]); octets e;
 		PGP::PacketSigEncode(O(in["hashed"]), O(in["left"]), s, e); g["enc"] = J(e); gcry_mpi_release(s);
+	} else if (op == "sigdec") {
+		Decoded d; decode_packet(O(in["os"]), d);
+		tmcg_openpgp_packet_ctx_t &c = d.ctx;
+		g["ret"] = (int)d.ret; g["v"] = (int)c.version; g["type"] = (int)c.type; g["pk"] = (int)c.pkalgo; g["hash"] = (int)c.hashalgo;
+		g["time"] = Pair32(c.sigcreationtime); g["issuer"] = J(c.issuer, 8); g["flags"] = J(c.keyflags, c.keyflagslen < 32 ? c.keyflagslen : 32);
+		g["hlen"] = c.hspdlen; g["left"] = J(c.left, 2);
+		json ms = json::array();
+		if (in["pk"].get<int>() == 17) { ms.push_back(JM(c.r)); ms.push_back(JM(c.s)); } else ms.push_back(JM(c.md));
+		g["mpis"] = ms; release(d);
 	} else if (op == "subpkt") {
 		octets e; PGP::SubpacketEncode((tmcg_openpgp_byte_t)in["type"].get<int>(), in["critical"].get<bool>(), O(in["data"]), e); g["enc"] = J(e);
 	} else if (op == "pub") {
@@ -400,6 +409,24 @@ static void rec_kdf(int hashalgo, int skalgo, const octets &zb, const std::strin
 	ev["ret"] = (int)(r ? 1 : 0); ev["out"] = J(mb); emit(ev);
 }
 
+static void rec_sigprep(const std::string &fn, int type, int pk, int hash, uint32_t t, uint32_t exp, const octets &issuer,
+		const std::string &policy, const octets &flags, const octets &revoker, int pk2, int revcode, const std::string &reason, bool bis) {
+	json ev; ev["e"] = "SigPrep"; ev["fn"] = fn; ev["v"] = (fn == "detachedv5") ? 5 : 4; ev["type"] = type; ev["pk"] = pk; ev["hash"] = hash;
+	ev["time"] = Pair32(t); ev["exp"] = Pair32(exp); ev["issuer"] = J(issuer); ev["policy"] = J(policy); ev["flags"] = J(flags);
+	ev["revoker"] = J(revoker); ev["pk2"] = pk2; ev["revcode"] = revcode; ev["reason"] = J(reason); ev["bis"] = bis;
+	octets out; tmcg_openpgp_signature_t ty = (tmcg_openpgp_signature_t)type; tmcg_openpgp_pkalgo_t pa = (tmcg_openpgp_pkalgo_t)pk;
+	tmcg_openpgp_hashalgo_t ha = (tmcg_openpgp_hashalgo_t)hash;
+	seam_md::begin();
+	if (fn == "self") PGP::PacketSigPrepareSelfSignature(ty, pa, ha, (time_t)t, (time_t)exp, flags, issuer, bis, out);
+	else if (fn == "revoker") { ev["type"] = 0x1F; PGP::PacketSigPrepareDesignatedRevoker(pa, ha, (time_t)t, flags, issuer, (tmcg_openpgp_pkalgo_t)pk2, revoker, bis, out); }
+	else if (fn == "detached") PGP::PacketSigPrepareDetachedSignature(ty, pa, ha, (time_t)t, (time_t)exp, policy, issuer, out);
+	else if (fn == "detachedv5") PGP::PacketSigPrepareDetachedSignatureV5(ty, pa, ha, (time_t)t, (time_t)exp, policy, issuer, out);
+	else if (fn == "revocation") PGP::PacketSigPrepareRevocationSignature(ty, pa, ha, (time_t)t, (tmcg_openpgp_revcode_t)revcode, reason, issuer, out);
+	else if (fn == "certification") PGP::PacketSigPrepareCertificationSignature(ty, pa, ha, (time_t)t, (time_t)exp, policy, issuer, out);
+	seam_md::end();
+	ev["out"] = J(out); emit(ev);
+}
+
 static int do_record(uint64_t seed, const std::string &tier, const char *outpath) {
 	seam::seed_harness(seed);
 	std::ofstream out(outpath); rec_out = &out;
@@ -443,6 +470,23 @@ static int do_record(uint64_t seed, const std::string &tier, const char *outpath
 		static const int KH[] = {8, 9, 10}; static const int KS[] = {7, 8, 9};
 		rec_kdf(KH[idx % 3], KS[(idx / 3 + idx) % 3], rnd(idx % 2 ? 32 : 66), tmcg_openpgp_oidtable[idx].name, oid, rnd(idx % 2 ? 20 : 32));
 	}
+	// hashed parts of signatures as prepared by the library (parsed back by the spec)
+	static const char *FN[] = {"self", "revoker", "detached", "detachedv5", "revocation", "certification"};
+	static const int TY[] = {0x13, 0x1F, 0x00, 0x01, 0x20, 0x10}; static const int TY2[] = {0x18, 0x1F, 0x02, 0x00, 0x28, 0x12};
+	static const int PK[] = {17, 1, 19, 22};
+	for (int r = 0; r < (thorough ? 24 : 4); r++)
+		for (int f = 0; f < 6; f++) {
+			std::string fn = FN[f];
+			size_t il = (r % 3 == 0) ? 20 : (r % 3 == 1) ? 8 : ((fn == "detached" || fn == "detachedv5") ? 32 : 20);
+			if (fn == "detachedv5" && il == 8) il = 20;
+			uint32_t t = (uint32_t)seam::next64(); if (r == 1) t |= 0x80000000u;
+			uint32_t ex = (r % 2) ? (uint32_t)(seam::next64() % 100000000u) + 1 : 0;
+			std::string policy; if (r % 2 == 0) { size_t pl = rndn(1, r == 2 ? 250 : 40); for (size_t k = 0; k < pl; k++) policy.push_back((char)('a' + seam::next64() % 26)); }
+			std::string reason; size_t rl = rndn(0, 30); for (size_t k = 0; k < rl; k++) reason.push_back((char)('A' + seam::next64() % 26));
+			octets flags = rnd(1 + (r % 2)); octets revoker = (r % 3 == 2) ? octets() : rnd(20);
+			static const int RC[] = {0, 1, 2, 3, 32};
+			rec_sigprep(fn, (r % 2) ? TY2[f] : TY[f], PK[(r + f) % 4], HASHES[(r + f) % 7], t, ex, rnd(il), policy, flags, revoker, PK[(r + 1) % 4], RC[(r + f) % 5], reason, r % 2 == 0);
+		}
 	out.close();
 	printf("{\"e\":\"done\"}\n");
 	return 0;
